@@ -169,7 +169,7 @@ def lost(source: str, output: str):
 # the real rules
 
 
-RULES = ["RUndefine", "RPointless", "RDeleteUnused", "RSelfCls", "RMoveStatic", "RDuplicate", "RAlign"]
+RULES = ["RUndefine", "RPointless", "RDeleteUnused", "RSelfCls", "RMoveStatic", "RDuplicate", "RAlign", "RUnreachable"]
 
 
 def run_rule(mods, rule: str, source: str, P) -> str:
@@ -189,6 +189,8 @@ def run_rule(mods, rule: str, source: str, P) -> str:
             return oo.move_staticmethod_static_scope(source, preserve=P)
         if rule == "RDuplicate":
             return fixes.remove_duplicate_functions(source, preserve=P)
+        if rule == "RUnreachable":
+            return fixes.delete_unreachable_code(source, preserve=P)
         if rule == "RAlign":
             return fixes.align_variable_names_with_convention(source, preserve=P)
     raise ValueError(rule)
